@@ -542,6 +542,23 @@ def run(pid, tier, seed):
                     C.report_violation(pid, rp)
                     viol += 1
 
+    signal_info = None
+    if pid == "C03":
+        # beyond the list: SignalSink hands messages to a slot in the receiver's thread (spec/QtlSignal.tla); it rests on the
+        # same deep copy of LogMessage as the hand-off.  Reported as a NOTE, never as a verdict on C03.
+        from . import signal_spec
+        try:
+            mcs = C.run_tlc("MC_Signal", "MC_Signal.cfg", timeout=600, workers=4)
+            if not mcs.ok or mcs.violation:
+                print("NOTE property=C03 MC_Signal: " + str(mcs.violation or mcs.error)[:200], flush=True)
+            sb = C.ensure_harness("asan", ["drv_signal"])
+            s_acc, s_fail, signal_info = signal_spec.campaign(sb, rnd, 40 if tier == "quick" else 1500, C.BUILD / "work" / "signal")
+            signal_info = dict(signal_info, accepted_runs=s_acc, rejected_runs=len(s_fail), mc_states=mcs.distinct)
+            if s_fail:
+                print(f"NOTE property=C03 the SignalSink machine (spec/QtlSignal.tla) rejected {len(s_fail)} of {signal_info['runs']} runs "
+                      f"(first: event {s_fail[0]['event']})", flush=True)
+        except C.ToolFailure as e:
+            print("NOTE property=C03 SignalSink conformance could not run: " + str(e)[:300], flush=True)
     name, pred = NONTRIVIAL[pid]
     nt = sum(1 for (s, _, info) in executed if pred(s, info))
     tot = lambda k: sum(info[k] for (_, _, info) in executed)
@@ -570,6 +587,7 @@ def run(pid, tier, seed):
         "schedule_gates_honoured": sum(info.get("gates_passed", 0) for (_, _, info) in executed),
         "schedule_gates_abandoned": sum(info.get("gates_abandoned", 0) for (_, _, info) in executed),
         "unsafe_environment_paths": unsafe, "rejected_runs": len(failures),
+        "beyond_the_list": {"signal_sink (spec/QtlSignal.tla)": signal_info},
     }, time.time() - t0, viol, [
         "TLC and the Json/IOUtils community modules are trusted",
         "events are ordered by one process-wide mutex-protected sequence; a mutex release is not an event: a mutex whose owner has "
